@@ -45,6 +45,7 @@ Notation stop_tok := (stop_tok binary_tokens sym_not).
 Notation xun_ok := (xun_ok op_string unary_tokens op_receive sym_arrow).
 Notation xbin_ok := (xbin_ok op_string bin_prec binary_tokens op_not_contains sym_not sym_contains).
 Notation spelled_mul := (spelled_mul op_string sym_mul).
+Notation embedded_ok := (embedded_ok op_string op_pointer sym_mul).
 Notation op_first := (op_first op_string).
 Notation starts_result := (starts_result kw_text name_ident name_lbrack result_start).
 Notation starts_result_o := (starts_result_o name_ident name_lbrack kw_text result_start).
@@ -1091,6 +1092,188 @@ Proof.
       assert (hcd : chan_dir dir_none dir_send sym_arrow (toks pe ++ rest) = (dir_none, toks pe ++ rest)).
       { unfold chan_dir. rewrite h1. cbn [app]. destruct t; try reflexivity. rewrite hf3. reflexivity. }
       rewrite hcd. cbn [fst snd]. rewrite (B_typ e' IHe nxt pe rest n he epe hnxt) by fuel. reflexivity.
+Qed.
+
+(* ---- struct types ---- *)
+Hypothesis sym_mul_ok : is_nil sym_mul = false /\ no_byte 32 sym_mul = true.
+
+Definition tfirst (t : tk) : bool :=
+  match t with KIdent _ | KSym _ | KLP | KKw _ | KLBrack => true | _ => false end.
+
+Lemma ident_text_ok a : has_prefix itea a = false -> ident_text a = a.
+Proof. unfold ident_text, itea. intros ->. reflexivity. Qed.
+
+(* a type starts with an identifier, an operator, a keyword, ( or [ *)
+Lemma type_first e : forall el nxt ps t r, ok true el e nxt = true -> pp e = Some ps -> toks ps = t :: r -> tfirst t = true.
+Proof.
+  intros el nxt ps t r hok hpp ht. destruct e; cbn [ExprFullOk.ok] in hok; try discriminate; cbn [ExprFullM.pp] in hpp.
+  - injection hpp as <-. cbn in ht. injection ht as <- _. reflexivity.
+  - apply andb_prop in hok. destruct hok as [hok _]. apply andb_prop in hok. destruct hok as [hok _].
+    apply andb_prop in hok. destruct hok as [hun _].
+    inv_pp hpp. try subst ps. unfold ExprFullOk.xun_ok in hun.
+    match goal with h : spell op = Some ?s |- _ => rewrite h in hun end.
+    apply andb_prop in hun. destruct hun as [hun _]. apply andb_prop in hun. destruct hun as [h1 h2]. apply negb_true_iff in h1.
+    rewrite !toks_app, (op_pieces_one _ h1 h2) in ht. cbn in ht. injection ht as <- _. reflexivity.
+  - destruct e; try discriminate. cbn [ExprFullM.pp] in hpp. inv_pp hpp. try subst ps. cbn in ht. injection ht as <- _. reflexivity.
+  - inv_pp hpp. try subst ps. cbn in ht. injection ht as <- _. reflexivity.
+  - inv_pp hpp. try subst ps. cbn in ht. injection ht as <- _. reflexivity.
+  - inv_pp hpp. try subst ps. cbn in ht. injection ht as <- _. reflexivity.
+  - inv_pp hpp. try subst ps. rewrite !toks_app in ht. destruct (dir =? dir_recv); cbn in ht; injection ht as <- _; reflexivity.
+  - destruct (join_opt _ _) as [pa|]; [|discriminate].
+    destruct results as [|[[a|] [t1|]] [|q rs]]; inv_pp hpp; try discriminate hpp; try subst ps; cbn in ht; injection ht as <- _; reflexivity.
+  - inv_pp hpp. try subst ps. cbn in ht. injection ht as <- _. reflexivity.
+  - injection hpp as <-. cbn in ht. injection ht as <- _. reflexivity.
+Qed.
+
+Lemma unquote_raw tag : tag <> [] -> unquote (backquote tag) = ROk tag.
+Proof.
+  intros h. unfold backquote. destruct tag as [|c [|d s]]; [contradiction|reflexivity|].
+  unfold unquote. cbn [app N.eqb Pos.eqb orb].
+  change (c :: d :: s ++ [96]) with ((c :: d :: s) ++ [96]). rewrite removelast_snoc. destruct s; reflexivity.
+Qed.
+
+Definition names_toks (f : bytes -> bytes) (bs : list bytes) : list tk := flat_map (fun b => [KComma; KIdent (f b)]) bs.
+
+Lemma toks_names' f bs : forall a,
+  toks (sep_by [PcT KComma; PcS] (ExprFullM.T (KIdent (f a)) :: map (fun x => ExprFullM.T (KIdent (f x))) bs)) =
+  KIdent (f a) :: names_toks f bs.
+Proof.
+  induction bs as [|b bs IH]; intros a; [reflexivity|]. cbn [map].
+  change (sep_by [PcT KComma; PcS] (ExprFullM.T (KIdent (f a)) :: ExprFullM.T (KIdent (f b)) :: map (fun x => ExprFullM.T (KIdent (f x))) bs))
+    with (ExprFullM.T (KIdent (f a)) ++ [PcT KComma; PcS] ++
+          sep_by [PcT KComma; PcS] (ExprFullM.T (KIdent (f b)) :: map (fun x => ExprFullM.T (KIdent (f x))) bs)).
+  rewrite !toks_app, IH. reflexivity.
+Qed.
+
+Lemma toks_names f a bs :
+  toks (sep_by [PcT KComma; PcS] (map (fun x => ExprFullM.T (KIdent (f x))) (a :: bs))) = KIdent (f a) :: names_toks f bs.
+Proof. apply toks_names'. Qed.
+
+Definition not_comma (r : list tk) : bool := match r with KComma :: _ => false | _ => true end.
+
+Lemma pnames_run f : forall bs acc r, not_comma r = true ->
+  pnames (names_toks f bs ++ r) acc = ROk (acc ++ map f bs, r).
+Proof.
+  induction bs as [|b bs IH]; intros acc r hr.
+  - cbn [names_toks flat_map app map]. rewrite app_nil_r. destruct r as [|[] r]; try reflexivity. discriminate.
+  - cbn [names_toks flat_map app map pnames]. fold (names_toks f bs). rewrite IH by exact hr. rewrite <- app_assoc. reflexivity.
+Qed.
+
+Definition field_pieces (fd : field) : option (list pc) :=
+  match pp (snd (fst fd)) with
+  | Some pt =>
+    Some (sep_by [PcT KComma; PcS] (map (fun a => ExprFullM.T (KIdent (ident_text a))) (fst (fst fd))) ++
+          (match fst (fst fd) with [] => [] | _ :: _ => [PcS] end) ++ pt ++
+          (match snd fd with [] => [] | _ :: _ => [PcS; PcT (KLit lit_string (backquote (snd fd)))] end))
+  | None => None
+  end.
+
+Definition okfield (fd : field) (sep : tk) : bool :=
+  let '(names, t, tag) := fd in
+  let after := if is_nil tag then sep else KLit lit_string (backquote tag) in
+  forallb (fun a => negb (has_prefix itea a)) names &&
+  (match names with [] => embedded_ok t | _ :: _ => ok true false t (Some after) end).
+
+Lemma forallb_ident_text names : forallb (fun a => negb (has_prefix itea a)) names = true -> map ident_text names = names.
+Proof.
+  induction names as [|a r IH]; [reflexivity|]. cbn [forallb map]. intros h. apply andb_prop in h. destruct h as [h1 h2].
+  apply negb_true_iff in h1. rewrite (ident_text_ok a h1), (IH h2). reflexivity.
+Qed.
+
+(* the end of a field: the tag and the separator *)
+Lemma field_tail_run names t tag sep rest' : (sep = KSemi \/ sep = KRBrace) ->
+  field_tail lit_string names t
+    (toks (match tag with [] => [] | _ :: _ => [PcS; PcT (KLit lit_string (backquote tag))] end) ++ sep :: rest') =
+  ROk ((names, t, tag), match sep with KSemi => rest' | _ => sep :: rest' end).
+Proof.
+  intros hsep. destruct tag as [|c tag'].
+  - cbn [toks app]. unfold field_tail. destruct hsep as [-> | ->]; reflexivity.
+  - cbn [toks app]. unfold field_tail. rewrite N.eqb_refl, unquote_raw by discriminate. cbn [rbind].
+    destruct hsep as [-> | ->]; reflexivity.
+Qed.
+
+Lemma field_run fd q sep rest' k :
+  A_stmt (snd (fst fd)) -> field_pieces fd = Some q -> okfield fd sep = true -> (sep = KSemi \/ sep = KRBrace) ->
+  (4 + full true (snd (fst fd)) <= S k)%nat ->
+  pfield (S k) (toks q ++ sep :: rest') =
+  ROk ((fst (fst fd), norm (snd (fst fd)), snd fd), match sep with KSemi => rest' | _ => sep :: rest' end).
+Proof.
+  destruct fd as [[names t] tag]. cbn [fst snd]. intros hA hq hok hsep hk.
+  unfold field_pieces in hq. cbn [fst snd] in hq. destruct (pp t) as [pt|] eqn:ept; [|discriminate]. injection hq as <-.
+  unfold okfield in hok. apply andb_prop in hok. destruct hok as [hnames hok].
+  assert (hsepne : forall (A : Type) (x y : A), match sep with KLit _ _ => x | _ => y end = y) by (intros; destruct hsep as [-> | ->]; reflexivity).
+  destruct names as [|a bs].
+  - (* embedded *)
+    cbn [map sep_by app]. rewrite !toks_app. rewrite <- !app_assoc.
+    pose proof (field_tail_run [] (norm t) tag sep rest' hsep) as htail.
+    unfold ExprFullOk.embedded_ok in hok.
+    assert (hbase : forall b pb, base_ok b = true -> pp b = Some pb ->
+              (exists a, toks pb = [KIdent a] /\ norm b = XIdent 0 a) \/
+              (exists a c, toks pb = [KIdent a; KPeriod; KIdent c] /\ norm b = XSel 0 (XIdent 0 a) c)).
+    { intros b pb hb hpb. destruct b; try discriminate.
+      - cbn [base_ok] in hb. apply negb_true_iff in hb. cbn [ExprFullM.pp] in hpb. injection hpb as <-. rewrite (ident_text_ok _ hb).
+        left. eexists. split; reflexivity.
+      - destruct b; try discriminate. cbn [base_ok] in hb. apply negb_true_iff in hb. cbn [ExprFullM.pp] in hpb. injection hpb as <-.
+        rewrite (ident_text_ok _ hb). right. eexists. eexists. split; reflexivity. }
+    assert (hnext : forall r1, r1 = toks (match tag with [] => [] | _ :: _ => [PcS; PcT (KLit lit_string (backquote tag))] end) ++ sep :: rest' ->
+               not_period r1 = true /\ (match r1 with KLit k0 _ :: _ => k0 = lit_string | _ => field_plain r1 = true /\ exists t0 r0, r1 = t0 :: r0 /\ ender t0 = true end)).
+    { intros r1 ->. destruct tag; cbn [toks app]; [|split; reflexivity].
+      destruct hsep as [-> | ->]; (split; [reflexivity|]); (split; [reflexivity|]); eexists; eexists; split; reflexivity. }
+    destruct (match t with XUn _ _ _ => true | _ => false end) eqn:eun.
+    + (* *T, *p.T *)
+      destruct t as [| |pu op t| | | | | | | | | | | | | | | | |]; try discriminate.
+      apply andb_prop in hok. destruct hok as [hok hb]. apply andb_prop in hok. destruct hok as [hop hmul].
+      apply N.eqb_eq in hop. subst op.
+      cbn [ExprFullM.pp] in ept. unfold ExprFullOk.spelled_mul in hmul.
+      destruct (spell op_pointer) as [s|] eqn:es; [|discriminate]. apply bytes_eqb_eq in hmul. subst s.
+      assert (hnop : is_operator t = false) by (destruct t as [| | | | | | |? t1| | | | | | | | | | | |]; try discriminate; reflexivity).
+      rewrite (np_un_nonop op_pointer t hnop) in ept.
+      destruct (pp t) as [pb|] eqn:epb; [|discriminate]. injection ept as <-.
+      destruct sym_mul_ok as [hm1 hm2].
+      rewrite !toks_app, (op_pieces_one sym_mul hm1 hm2). cbn [wrapp].
+      replace (toks (if op_pointer =? op_extended_not then [PcS] else [])) with (@nil tk) by (destruct (op_pointer =? op_extended_not); reflexivity).
+      cbn [app ExprFull_base.norm]. rewrite (wrapped_un_eq _ _ _ (np_un_nonop op_pointer t hnop)).
+      cbn [pw]. rewrite <- ?app_assoc.
+      pose proof (field_tail_run [] (XUn 0 op_pointer (norm t)) tag sep rest' hsep) as htail2.
+      destruct (hbase _ pb hb epb) as [[a [h1 h2]]|[a [c0 [h1 h2]]]]; rewrite h1, h2 in *; cbn [app].
+      * rewrite pfield_star; [exact htail2|]. destruct (hnext _ eq_refl) as [hnp _]. exact hnp.
+      * rewrite pfield_star_sel. exact htail2.
+    + assert (hok' : base_ok t = true) by (destruct t; try discriminate eun; exact hok).
+      destruct (hbase t pt hok' ept) as [[a [h1 h2]]|[a [c0 [h1 h2]]]]; rewrite h1, h2 in *; cbn [app].
+      * (* T *)
+        destruct (hnext _ eq_refl) as [hnp hcase].
+        destruct (toks _ ++ sep :: rest') as [|t0 r0] eqn:er; [destruct tag; discriminate|].
+        destruct t0; try (destruct hcase as [hpl [t1 [r1 [heq hen]]]]; injection heq as <- <-;
+                          rewrite pfield_one by exact hpl; rewrite pexpr_none by (try lia; exact hen); cbn [rbind]; exact htail).
+        subst k0. rewrite pfield_embedded_tag. exact htail.
+      * rewrite pfield_sel. exact htail.
+  - (* named *)
+    change (map (fun a0 => ExprFullM.T (KIdent (ident_text a0))) (a :: bs))
+      with (map (fun x => ExprFullM.T (KIdent (ident_text x))) (a :: bs)).
+    rewrite !toks_app, toks_names. cbn [toks app]. rewrite <- !app_assoc. cbn [app].
+    cbn [forallb] in hnames. apply andb_prop in hnames. destruct hnames as [ha hbs]. apply negb_true_iff in ha.
+    rewrite (ident_text_ok a ha).
+    set (after := if is_nil tag then sep else KLit lit_string (backquote tag)) in *.
+    set (tailtoks := toks (match tag with [] => [] | _ :: _ => [PcS; PcT (KLit lit_string (backquote tag))] end) ++ sep :: rest').
+    assert (hafter : hd_error tailtoks = Some after).
+    { unfold tailtoks, after. destruct tag; reflexivity. }
+    destruct (first_tok_cons t pt ept) as [t0 [r0 [h1 _]]].
+    pose proof (type_first t false (Some after) pt t0 r0 hok ept h1) as htf.
+    pose proof (field_tail_run (a :: bs) (norm t) tag sep rest' hsep) as htail. fold tailtoks in htail.
+    assert (hB : pexpr k fl_typ (toks pt ++ tailtoks) = ROk (Some (norm t), tailtoks)).
+    { apply (B_typ t hA (Some after) pt tailtoks k hok ept hafter). fuel. }
+    destruct bs as [|b bs'].
+    + cbn [names_toks flat_map app]. rewrite pfield_one.
+      * rewrite hB. cbn [rbind]. exact htail.
+      * rewrite h1. cbn [app]. destruct t0; try discriminate; reflexivity.
+    + assert (hnt : names_toks ident_text (b :: bs') ++ toks pt ++ tailtoks =
+                    KComma :: (KIdent (ident_text b) :: names_toks ident_text bs') ++ toks pt ++ tailtoks) by reflexivity.
+      rewrite hnt. rewrite pfield_names.
+      change (KComma :: (KIdent (ident_text b) :: names_toks ident_text bs') ++ toks pt ++ tailtoks)
+        with (names_toks ident_text (b :: bs') ++ toks pt ++ tailtoks).
+      rewrite pnames_run by (rewrite h1; cbn [app]; destruct t0; try discriminate; reflexivity).
+      cbn [rbind fst snd]. rewrite hB. cbn [rbind].
+      rewrite (forallb_ident_text _ hbs). exact htail.
 Qed.
 
 End Main.
